@@ -465,4 +465,128 @@ theorem machineKernLoopFI_spec (cm : Bool) (f : Font) (kernMask : Nat) (h cs : B
       obtain ⟨⟨rfl, _, _⟩, rfl, rfl⟩ := hr
       exact ⟨BufGrown.refl _, Nat.le_refl _, fun _ => by omega, fun e he => by cases he⟩
 
+
+/-! ### the two entry points -/
+
+/-- `machineKernF` with the events -/
+def machineKernFI (f : Font) (b : Buf) (p : Array Pos) (kernMask : Nat) (d : Dir) (crossStream : Bool)
+    (kernOf : Nat → Nat → Int) : RbModel.M ((Buf × Array Pos × Bool) × List KEvent × Nat) :=
+  match b.unsafeToConcat 0 none with
+  | .error e => .error e
+  | .ok b => machineKernLoopFI false f kernMask d.isHorizontal crossStream kernOf (b.len + 1) 0 b p false
+
+theorem machineKernFI_erase (f : Font) (b : Buf) (p : Array Pos) (kernMask : Nat) (d : Dir) (cs : Bool)
+    (kernOf : Nat → Nat → Int) :
+    (machineKernFI f b p kernMask d cs kernOf).map (·.1) = machineKernF f b p kernMask d cs kernOf := by
+  unfold machineKernFI machineKernF
+  cases b.unsafeToConcat 0 none with
+  | error e => rfl
+  | ok b0 => exact machineKernLoopFI_erase _ _ _ _ _ _ _ _ _ _ _
+
+/-- `kerxSimpleF` with the events -/
+def kerxSimpleFI (leadingConcat : Bool) (f : Font) (b : Buf) (p : Array Pos) (kernMask : Nat) (d : Dir) (crossStream : Bool)
+    (kernOf : Nat → Nat → Int) : RbModel.M ((Buf × Array Pos × Bool) × List KEvent × Nat) :=
+  match (if leadingConcat then b.unsafeToConcat 0 none else .ok b) with
+  | .error e => .error e
+  | .ok b => machineKernLoopFI true f kernMask d.isHorizontal crossStream kernOf (b.len + 1) 0 b p false
+
+theorem kerxSimpleFI_erase (lc : Bool) (f : Font) (b : Buf) (p : Array Pos) (kernMask : Nat) (d : Dir) (cs : Bool)
+    (kernOf : Nat → Nat → Int) :
+    (kerxSimpleFI lc f b p kernMask d cs kernOf).map (·.1) = kerxSimpleF lc f b p kernMask d cs kernOf := by
+  unfold kerxSimpleFI kerxSimpleF
+  cases (if lc = true then b.unsafeToConcat 0 none else .ok b) with
+  | error e => rfl
+  | ok b0 => exact machineKernLoopFI_erase _ _ _ _ _ _ _ _ _ _ _
+
+/-- `unsafe_to_concat(None, None)`: every glyph of the buffer gets UNSAFE_TO_CONCAT when the flag is requested -/
+theorem leadingConcat_spec (b b0 : Buf) (h : b.unsafeToConcat 0 none = .ok b0) (hlen : b.len ≤ b.info.length) :
+    BufGrown b b0 ∧ (b.flags &&& Gen.Buf.produceUnsafeToConcat ≠ 0 →
+      ∀ q x, q < b.len → b.info[q]? = some x → ConcatFlagged b0.info q x) := by
+  rw [unsafeToConcat_none] at h
+  obtain ⟨b2, hb2, hg, hb2'⟩ := unsafeToConcat_grown b 0 b.len (Nat.zero_le _) (Nat.le_refl _) hlen
+  rw [h] at hb2; cases hb2
+  refine ⟨⟨hb2', hg⟩, ?_⟩
+  intro hreq q x hq hx
+  obtain ⟨b3, hb3, hu, _⟩ := unsafeToConcat_span b 0 b.len hreq (Nat.zero_le _) (Nat.le_refl _) hlen
+  rw [h] at hb3; cases hb3
+  exact ConcatFlagged.of_upd hu hx (Nat.zero_le _) hq
+
+/-- cross-stream kerning moves only the right glyph (`pos[j].y_offset = kern` / `x_offset`) and sets HAS_GPOS_ATTACHMENT -/
+theorem kernPair_cross {p q : Array Pos} {i j : Nat} {kern : Int} {h f : Bool}
+    (hk : Kern.kernPair p i j kern h true = .ok (q, f)) : f = true ∧ ∀ k, k ≠ j → q[k]? = p[k]? := by
+  unfold Kern.kernPair at hk
+  cases h <;> simp only [Bool.false_eq_true, if_false, if_true] at hk
+  · split at hk
+    · cases hk
+    · simp only [Except.ok.injEq, Prod.mk.injEq] at hk
+      obtain ⟨rfl, rfl⟩ := hk
+      exact ⟨rfl, fun k hk => by rw [Gpos.put_get?_ne _ _ (Ne.symm hk)]⟩
+  · split at hk
+    · cases hk
+    · simp only [Except.ok.injEq, Prod.mk.injEq] at hk
+      obtain ⟨rfl, rfl⟩ := hk
+      exact ⟨rfl, fun k hk => by rw [Gpos.put_get?_ne _ _ (Ne.symm hk)]⟩
+
+/-- both entry points: a flag call that only grows masks, then the loop with fuel `len + 1` from 0 -/
+theorem kernEntry_spec (cm : Bool) (f : Font) (kernMask : Nat) (h cs : Bool) (kernOf : Nat → Nat → Int) (b b0 : Buf)
+    (p : Array Pos) (bF : Buf) (pF : Array Pos) (flF : Bool) (evs : List KEvent) (iEnd : Nat) (hg0 : BufGrown b b0)
+    (hl : machineKernLoopFI cm f kernMask h cs kernOf (b0.len + 1) 0 b0 p false = .ok ((bF, pF, flF), evs, iEnd))
+    (k : KInv b) : BufGrown b bF ∧ BufGrown b0 bF ∧ b.len ≤ iEnd ∧ ∀ e ∈ evs, e.Holds cm b bF := by
+  have k0 := KInv.of_grown hg0 k
+  obtain ⟨hg, _, hend, hevs⟩ := machineKernLoopFI_spec cm f kernMask h cs kernOf _ _ _ _ _ _ _ _ _ _ hl k0
+  refine ⟨hg0.trans hg, hg, ?_, fun e he => (hevs e he).2.of_grown hg0⟩
+  have := hend (by omega)
+  rw [hg0.len] at this; exact this
+
+end RbModel.PairFlag
+
+/-! ### closed instances used by the non-vacuity examples and the generated probes of Props/C03.lean and Props/C04.lean -/
+namespace RbModel.PairFlag
+open RbModel RbModel.Gsub RbModel.GposFlag
+open RbModel.Gpos (Pos Dir ValueRecordD)
+
+/-- (gid, mask, glyph_props, unicode_props, cluster) as the `pf mk` / `pf kx` requests write a glyph -/
+def infoK (t : Nat × Nat × Nat × Nat × Nat) : Info :=
+  { gid := t.1, mask := t.2.1, cluster := t.2.2.2.2, var1 := t.2.2.1, var2 := t.2.2.2.1 }
+
+/-- (gid, glyph_props, lig_props, cluster, mask) as the `pf pair` request writes a glyph -/
+def infoP (t : Nat × Nat × Nat × Nat × Nat) : Info :=
+  { gid := t.1, mask := t.2.2.2.2, cluster := t.2.2.2.1, var1 := t.2.1 + t.2.2.1 * 65536 }
+
+/-- base 1 | GDEF mark 9 | GDEF mark 9 | base 2, clusters 0 1 2 3, every glyph inside the kern feature's range (mask bit
+    0x100); PRODUCE_UNSAFE_TO_CONCAT requested (`flags`) -/
+def spanKernBuf (flags mask : Nat) : Buf :=
+  { info := [(1, mask, 2, 7, 0), (9, mask, 8, 7, 1), (9, mask, 8, 7, 2), (2, mask, 2, 7, 3)].map infoK, len := 4, flags := flags }
+
+def spanKernPos : Array Pos := #[{ xa := 600 }, {}, {}, { xa := 500 }]
+
+/-- the pair (1, 2) is kerned by -50 -/
+def spanKernOf : Nat → Nat → Int := fun l r => if l = 1 ∧ r = 2 then -50 else 0
+
+/-- what an event says -/
+def KEvent.view (e : KEvent) : Nat × List Nat × Bool × Nat × Int := (e.i, e.reads, e.found, e.stop, e.kern)
+
+/-- masks and x-advances at the end, the events, the index at which the loop stopped -/
+def kernView (r : (Buf × Array Pos × Bool) × List KEvent × Nat) :
+    List Nat × List Int × List (Nat × List Nat × Bool × Nat × Int) × Nat :=
+  (r.1.1.info.map (·.mask), r.1.2.1.toList.map (·.xa), r.2.1.map KEvent.view, r.2.2)
+
+/-- PairPos format 1 with one PairSet: first glyph 1, second glyph 3, record 1 = x_advance -50, record 2 empty -/
+def spanPairData : PairData :=
+  { covered := fun g => g = 1, hasSet := fun g => g = 1,
+    records := fun f s => if f = 1 ∧ s = 3 then some ({ xAdvance := -50 }, {}) else none }
+
+/-- first 1 | GDEF mark 9 | third glyph `g` (3: the pair is in the PairSet; 2: it is not), clusters 0 1 2, lookup flag
+    IgnoreMarks, lookup mask 0x100, cursor on the first glyph -/
+def spanPairCtx (flags g : Nat) : Ctx :=
+  { buf := { info := [(1, 2, 0, 0, 256), (9, 8, 0, 1, 256), (g, 2, 0, 2, 256)].map infoP, len := 3, flags := flags,
+             havePos := true },
+    font := {}, isGpos := true, lookupMask := 256, lookupProps := 8 }
+
+def spanPairPos : Array Pos := #[{ xa := 600 }, {}, { xa := 500 }]
+
+/-- masks, cursor and x-advances after PairPos, and whether it applied -/
+def pairView (r : Buf × Array Pos × Bool) : List Nat × Nat × List Int × Bool :=
+  (r.1.info.map (·.mask), r.1.idx, r.2.1.toList.map (·.xa), r.2.2)
+
 end RbModel.PairFlag
